@@ -415,6 +415,9 @@ impl Property for C16 {
         (hist_strategy(SCALAR_TYPES, ALL_STORAGES, op_mix(), 6, 0), prop::collection::vec(query(), 1..4)).prop_map(|(hist, queries)| Input { hist, queries }).boxed()
     }
     fn check(&self, input: &Input, obs: &mut Obs, env: &Env) -> CheckResult {
-        env.block_on(run(input, obs, env))
+        crate::model::WIDE_LITS.with(|m| m.set(true));
+        let r = env.block_on(run(input, obs, env));
+        crate::model::WIDE_LITS.with(|m| m.set(false));
+        r
     }
 }
